@@ -31,12 +31,13 @@ type elem struct {
 	kind     int
 	name     string
 	value    string
-	children map[string]*elem
+	children map[string]*elem // sub-domains
+	leaves   map[string]*elem // key=value entries (separate name space)
 	line     []string
 }
 
 func newElem(kind int, name string) *elem {
-	return &elem{kind: kind, name: name, value: "", children: make(map[string]*elem)}
+	return &elem{kind: kind, name: name, value: "", children: make(map[string]*elem), leaves: make(map[string]*elem)}
 }
 
 func (e *elem) setValue(value string) *elem {
@@ -45,8 +46,11 @@ func (e *elem) setValue(value string) *elem {
 }
 
 func (e *elem) addChild(name string, child *elem) {
+	if child.isLeaf() {
+		e.leaves[name] = child
+		return
+	}
 	e.children[name] = child
-	return
 }
 
 func (e *elem) addLine(line string) *elem {
@@ -73,6 +77,9 @@ func (e *elem) toString(h int) string {
 	}
 	ret := fmt.Sprintf("\n%s%s:", strings.Repeat("\t", h), e.name)
 	for _, child := range e.children {
+		ret += child.toString(h + 1)
+	}
+	for _, child := range e.leaves {
 		ret += child.toString(h + 1)
 	}
 	return ret
@@ -134,10 +141,8 @@ func (e *elem) getDomainKey(path string) ([]string, error) {
 	if err != nil {
 		return domainKey, err
 	}
-	for _, child := range targetNode.children {
-		if child.isLeaf() {
-			domainKey = append(domainKey, child.name)
-		}
+	for _, child := range targetNode.leaves {
+		domainKey = append(domainKey, child.name)
 	}
 	return domainKey, nil
 }
@@ -161,10 +166,8 @@ func (e *elem) getMap(path string) (map[string]string, error) {
 	if err != nil {
 		return kvMap, err
 	}
-	for _, child := range targetNode.children {
-		if child.isLeaf() {
-			kvMap[child.name] = child.value
-		}
+	for _, child := range targetNode.leaves {
+		kvMap[child.name] = child.value
 	}
 	return kvMap, nil
 }
@@ -172,6 +175,14 @@ func (e *elem) getMap(path string) (map[string]string, error) {
 // path like /A/B/C/<data> or /A/B/C<data>
 func (e *elem) getValue(path string) (string, error) {
 	pathVec := e.analysisPath(path)
+	if n := len(pathVec); n > 0 {
+		// the last item names a key of the domain designated by the items before it
+		if domain, err := e.getElem(pathVec[:n-1]); err == nil {
+			if leaf, ok := domain.leaves[pathVec[n-1]]; ok {
+				return leaf.value, nil
+			}
+		}
+	}
 	targetNode, err := e.getElem(pathVec)
 	if err != nil {
 		return "", err
